@@ -118,3 +118,14 @@ pub fn writer_events(t: &mut TraceFile, evs: &[verif::Event]) {
         }
     }
 }
+
+/// object table events (Trace_Refs.tla)
+pub fn ref_events(t: &mut TraceFile, evs: &[verif::Event]) {
+    for e in evs {
+        match e.kind {
+            "ref" => t.line(json!({"ev": "ref", "id": e.a, "new": e.b})),
+            "tref" => t.line(json!({"ev": "tref", "id": e.a})),
+            _ => {}
+        }
+    }
+}
